@@ -66,7 +66,10 @@ func (e *Exec) call(fr *Frame, st *State, ins ssa.Instruction, cc *ssa.CallCommo
 		return e.unknownCall(fr, st, ins, name, rtyp, args)
 	}
 	if e.eng.inlinable(callee, e.pure > 0) {
-		return e.inline(fr, st, callee, args, bindings)
+		if v, ok := e.tryInline(fr, st, callee, args, bindings); ok {
+			return v
+		}
+		// the body uses something outside the subset: abstract the call instead
 	}
 	if e.pure > 0 {
 		// in specifications an unknown pure function is an uninterpreted function of its arguments
@@ -136,6 +139,37 @@ func (e *Exec) inline(fr *Frame, st *State, callee *ssa.Function, args []Val, bi
 	e.oblPrefix = savedPrefix
 	*st = *out
 	return packResults(res)
+}
+
+// tryInline inlines the callee; if its body turns out to be outside the subset, every effect of the
+// attempt is rolled back and false is returned (the caller then abstracts the call).
+func (e *Exec) tryInline(fr *Frame, st *State, callee *ssa.Function, args []Val, bindings []Val) (v Val, ok bool) {
+	if e.eng.inlineFails[callee] {
+		return Val{}, false
+	}
+	saved := st.clone()
+	nObl := len(e.obls)
+	names := make(map[string]int, len(e.oblNames))
+	for k, n := range e.oblNames {
+		names[k] = n
+	}
+	prefix, depth, pure, noPrune := e.oblPrefix, e.depth, e.pure, e.noPrune
+	defer func() {
+		if r := recover(); r != nil {
+			u, isU := r.(unsupported)
+			if !isU {
+				panic(r)
+			}
+			*st = *saved
+			e.obls = e.obls[:nObl]
+			e.oblNames = names
+			e.oblPrefix, e.depth, e.pure, e.noPrune = prefix, depth, pure, noPrune
+			e.eng.inlineFails[callee] = true
+			e.note("callee not inlined (" + u.msg + "): " + callee.String())
+			v, ok = Val{}, false
+		}
+	}()
+	return e.inline(fr, st, callee, args, bindings), true
 }
 
 func packResults(res []Val) Val {
@@ -699,6 +733,19 @@ func (e *Exec) intrinsic(fr *Frame, st *State, ins ssa.Instruction, callee *ssa.
 			e.fail("__modall on %s", cc.Args[0].Type())
 		}
 		return Val{}, true
+	case "__cases":
+		// __cases(x, v1, v2, ...): always true; asks the next obligation to be split by x == vi
+		h := &caseHint{x: args[0].T}
+		vs := args[1]
+		_ = vs
+		if sl, ok := cc.Args[1].(*ssa.Slice); ok {
+			_ = sl
+		}
+		for _, cv := range e.variadicConsts(fr, cc.Args[1]) {
+			h.vals = append(h.vals, cv)
+		}
+		e.caseHint = h
+		return Val{T: c.True()}, true
 	case "__same":
 		return Val{T: c.Same(args[0].T, args[1].T)}, true
 	}
@@ -733,4 +780,39 @@ func (e *Exec) collectObjLocs(r *Term, ty types.Type) {
 	n, s := e.boxArr(ty)
 	e.heapSorts[n] = s
 	*e.collectLocs = append(*e.collectLocs, Loc{n, r})
+}
+
+// variadicConsts: the constant elements of a variadic argument built in the same function.
+func (e *Exec) variadicConsts(fr *Frame, v ssa.Value) []*Term {
+	sl, ok := v.(*ssa.Slice)
+	if !ok {
+		e.fail("__cases needs literal values")
+	}
+	arr, ok := sl.X.(*ssa.Alloc)
+	if !ok {
+		e.fail("__cases needs literal values")
+	}
+	byIdx := map[int64]*Term{}
+	for _, r := range *arr.Referrers() {
+		ia, ok := r.(*ssa.IndexAddr)
+		if !ok {
+			continue
+		}
+		k, ok := ia.Index.(*ssa.Const)
+		if !ok {
+			continue
+		}
+		for _, r2 := range *ia.Referrers() {
+			if st, ok := r2.(*ssa.Store); ok {
+				if cv, ok := st.Val.(*ssa.Const); ok {
+					byIdx[k.Int64()] = e.constVal(cv).T
+				}
+			}
+		}
+	}
+	var out []*Term
+	for i := int64(0); i < int64(len(byIdx)); i++ {
+		out = append(out, byIdx[i])
+	}
+	return out
 }
